@@ -132,6 +132,9 @@ func NewDriver(
 	}
 
 	d := &Driver{
+		// the logger the user asked for (if any), the logger options only know the generic driver
+		Logger: gd.Logger,
+
 		TransportType: gd.TransportType,
 		Transport:     gd.Transport,
 		Channel:       gd.Channel,
